@@ -69,6 +69,8 @@ type Exec struct {
 	callCount map[string]int
 	binds map[string]Val
 	relyMode bool
+	entryHeld map[string]bool
+	curOwner *Val
 	curInline int
 	retHook func(s *State, res []Val)
 }
@@ -167,11 +169,21 @@ func (x *Exec) loadLoc(s *State, l *Loc) Val {
 			v.L[i] = x.heapLoad(s, l.Path+lf.Suffix, lf.Sort, l.Base)
 		}
 		x.assumeRanges(s, v)
-		if ts, tn, field := x.classify(l.Path); ts != nil && ts.AtomicCell[field] && len(v.L) == 1 {
-			if s.cellOrigin == nil {
-				s.cellOrigin = map[string]string{}
+		if strings.HasPrefix(l.Path, "glob:") {
+			x.assumeTableFacts(s, strings.TrimPrefix(l.Path, "glob:"), v)
+		}
+		if ts, tn, field := x.classify(l.Path); ts != nil {
+			if ts.AtomicCell[field] && len(v.L) == 1 {
+				if s.cellOrigin == nil {
+					s.cellOrigin = map[string]string{}
+				}
+				s.cellOrigin[v.L[0]] = tn + "." + field
 			}
-			s.cellOrigin[v.L[0]] = tn + "." + field
+			if dt, ok := ts.DynType[field]; ok && len(v.L) == 2 {
+				if t, err := x.P.lookupType(dt); err == nil {
+					v.L[0] = fmt.Sprint(x.P.typeID(t))
+				}
+			}
 		}
 		return v
 	case LocElem:
@@ -179,6 +191,37 @@ func (x *Exec) loadLoc(s *State, l *Loc) Val {
 	}
 	unsupported("load from location kind %d", l.Kind)
 	return Val{}
+}
+
+// assumeTableFacts: facts about lookup tables established by table evaluation.
+func (x *Exec) assumeTableFacts(s *State, global string, v Val) {
+	if len(v.L) != 2 {
+		return
+	}
+	for _, tf := range x.P.specs.Tables {
+		if tf.Global != global {
+			continue
+		}
+		key := "table:" + global + ":" + tf.Label
+		if s.ranged == nil {
+			s.ranged = map[string]bool{}
+		}
+		if s.ranged[key] {
+			continue
+		}
+		s.ranged[key] = true
+		x.D.n++
+		q := fmt.Sprintf("q_tbl_%d", x.D.n)
+		env := &Env{x: x, s: s, heap: s.heap, old: s.heap, inQuant: true, vars: map[string]Val{
+			"i": intVal(q), "v": intVal("(select " + v.L[1] + " " + q + ")"), "n": intVal(v.L[0])}}
+		body := env.evalBool(tf.Expr)
+		if !mentions(tf.Expr, "i") && !mentions(tf.Expr, "v") {
+			s.pc = append(s.pc, body)
+			continue
+		}
+		s.pc = append(s.pc, "(forall (("+q+" Int)) (! (=> (and (<= 0 "+q+") (< "+q+" "+v.L[0]+")) "+body+") :pattern ((select "+v.L[1]+" "+q+"))))")
+		x.note("table fact " + global + ":" + tf.Label + " assumed where the table is read (established by table evaluation)")
+	}
 }
 
 // assumeRanges records the machine-type range of values read from typed memory.
@@ -486,6 +529,15 @@ func (x *Exec) execInstr(s *State, in ssa.Instruction) {
 		v := x.val(s, in.Val)
 		if v.Loc != nil && loc.Kind != LocLocal {
 			unsupported("storing an interior pointer into the heap at %s", x.P.prog.Fset.Position(in.Pos()))
+		}
+		if loc.Kind == LocHeap && len(v.L) == 2 {
+			if ts, _, field := x.classify(loc.Path); ts != nil {
+				if dt, ok := ts.DynType[field]; ok {
+					if t, err := x.P.lookupType(dt); err == nil {
+						x.emit(s, "dyntype", field, nil, sEq(v.L[0], fmt.Sprint(x.P.typeID(t))), nil)
+					}
+				}
+			}
 		}
 		if loc.Kind == LocArrElem {
 			x.storeArrElem(s, loc, v)
